@@ -113,9 +113,11 @@ func (s *Sym) MakeFn(name string, args ...*RF) *RF {
 		if in := args[1].SingleAtom(); in != nil && in.Name == "ite" && in.Args[1].Equal(args[2]) {
 			return s.MakeFn("ite", s.And(args[0], s.Not(in.Args[0])), in.Args[2], args[2])
 		}
-		// ite(!c,a,b) = ite(c,b,a)
+		// ite(!c,a,b) = ite(c,b,a) ; ite(a!=b, x, y) = ite(a==b, y, x)
 		if c := args[0].SingleAtom(); c != nil && c.Name == "not" {
 			return s.MakeFn("ite", c.Args[0], args[2], args[1])
+		} else if c != nil && c.Name == "cmp!=" {
+			return s.MakeFn("ite", s.MakeFn("cmp==", c.Args...), args[2], args[1])
 		}
 	case "not":
 		return s.Not(args[0])
